@@ -73,6 +73,15 @@ func renderPreamble(pre []rItem, withHeader bool) string {
 	return b.String()
 }
 
+// renderPreambleAtts: the same with the given attachments in the header.
+func renderPreambleAtts(pre []rItem, atts [][]rPart) string {
+	words := []string{}
+	for _, a := range atts {
+		words = append(words, renderValue(a))
+	}
+	return renderPreamble(pre, false) + "profile vgen " + strings.Join(words, " ") + " {\n  include <abstractions/base>\n}\n"
+}
+
 var (
 	reCmtID = regexp.MustCompile(`^ ?c(\d+)$`)
 	reIncID = regexp.MustCompile(`^tunables/v(\d+)$`)
@@ -203,7 +212,6 @@ func checkC13(e *Env, r *Report) {
 	r.Coverage["model_preambles"] = len(pres)
 	// quick tier: all preambles up to length 3 and a seeded sample of the longer ones
 	rng := rand.New(rand.NewSource(e.Seed))
-	atts := [][]rPart{{{T: "ref", S: "exec_path"}}}
 	recs := []any{}
 	seen := map[string]bool{}
 	nRun, nSkipped := 0, 0
@@ -215,7 +223,14 @@ func checkC13(e *Env, r *Report) {
 		if e.Tier != "thorough" && len(b.Pre) > 3 && rng.Intn(4) != 0 {
 			continue
 		}
+		// the attachment is @{exec_path}; every third preamble also gets one with a literal prefix and a
+		// variable in the middle (/pre/@{a}/x), which must be resolved (and its errors reported) all the same
+		atts := [][]rPart{{{T: "ref", S: "exec_path"}}}
 		text := renderPreamble(b.Pre, true)
+		if nRun%3 == 2 {
+			atts = [][]rPart{{{T: "ref", S: "exec_path"}}, {{T: "lit", S: "/pre"}, {T: "ref", S: "a"}, {T: "lit", S: "/x"}}}
+			text = renderPreambleAtts(b.Pre, atts)
+		}
 		for _, withDef := range []bool{false, true} {
 			o := realResolve(text, withDef)
 			nRun++
